@@ -488,7 +488,7 @@ def _mutants():
     return [
         M("finished-cleared-per-element", D, "log_probs_t = log_probs_t.masked_fill(eos_mask.unsqueeze(2), -float('inf'))", "log_probs_t = log_probs_t.masked_fill(done_mask.unsqueeze(2), -float('inf'))", "finished-path-cleared-under-its-own-mask"),
         M("filler-block-assumes-growth", "_decoding.py", "y_next = torch.cat([y_next, y_next.new_empty(y_next.size(0), N, rem)], 2)", "y_next = torch.cat([y_next, y_next.new_empty(tm1 + 1, N, rem)], 2)", "pad-block-extent"),
-        M("waits-for-empty-slots", "_decoding.py", "done_mask = (eos_mask | (log_probs_prev == -float('inf'))).all(1, keepdim=True)", "done_mask = eos_mask.all(1, keepdim=True)", "all-paths-finished-counts-empty-slots"),
+        M("waits-for-empty-slots", "_decoding.py", "done_mask = (eos_mask | (log_probs_prev == -float('inf'))).all(1, keepdim=True)", "done_mask = eos_mask.all(1, keepdim=True)", "all-paths-mode-waits-for-every-slot"),
         M("fused-second-state-from-first", "_lm.py", "prev_second = self.second.extract_by_src(prev_second, src)", "prev_second = self.second.extract_by_src(prev_first, src)", "own-state"),
         M("stale-state", D, "prev = self.lm.extract_by_src(in_next, next_src.flatten())",
           "prev = self.lm.extract_by_src(prev, next_src.flatten())", "extract_by_src(state of this step)"),
